@@ -86,7 +86,7 @@ def dec_history(w):
 # ---- independent reference of the documented procedure ----
 
 def pslice(u, a, b):
-    return u[a:b]      # Python slice semantics are part of the documented behaviour
+    return u[a:b]      # (non-negative bounds only: the n-gram BEFORE a position is taken with max(0, .), fix e3d63e5)
 
 
 def ref_process(lex, beg, end, utt, window, byfreq, update):
@@ -108,7 +108,7 @@ def ref_process(lex, beg, end, utt, window, byfreq, update):
                             if best is None or c >= best[1]:
                                 best = (k, c)
                         jj = best[0]
-                    prev_ok = i == 0 or ''.join(pslice(utt, i - window, i)) in end
+                    prev_ok = i == 0 or ''.join(utt[max(0, i - window):i]) in end      # the (at most window) units before position i
                     next_ok = ''.join(pslice(utt, jj + 1, jj + 1 + window)) in beg
                     if prev_ok and next_ok:
                         hit = (i, jj)
@@ -130,7 +130,7 @@ def ref_process(lex, beg, end, utt, window, byfreq, update):
                 lex[w] += 1
                 if b + 1 - a >= 2:
                     beg[''.join(pslice(utt, a, a + window))] += 1
-                    end[''.join(pslice(utt, b + 1 - window, b + 1))] += 1
+                    end[''.join(utt[max(0, b + 1 - window):b + 1])] += 1      # the last (at most window) units up to b
         if not hit or hit[1] == n - 1:
             return out
         utt = utt[hit[1] + 1:]
